@@ -107,8 +107,10 @@ class FakeSnowflakeCursor:
         """
 
         describe = f"DESCRIBE {command}"
-        self.execute(describe, *args, **kwargs)
-        return describe_as_result_metadata(self.fetchall())
+        # use a separate cursor so the result set pending on this cursor stays (and a DictCursor can describe too)
+        with self._conn.cursor() as cur:
+            cur.execute(describe, *args, **kwargs)
+            return describe_as_result_metadata(cur.fetchall())
 
     @property
     def description(self) -> list[ResultMetadata]:
